@@ -78,16 +78,20 @@ def twoDigits (v : Bytes) (i : Nat) : Option Nat :=
   | some x, some y => if isDigit x && isDigit y then some ((x - 48) * 10 + (y - 48)) else none
   | _, _ => none
 
-/-- `time.Parse("2006-01-02T15", v)` succeeds -/
+/-- `time.Parse("2006-01-02T15", v)` succeeds: four-digit year, two-digit month and day (fixed
+width), `T`, hour of one or two digits (`getnum(value, false)`), day within the month -/
 def dateHourOk (v : Bytes) : Bool :=
-  v.length == 13 && v[4]? == some 45 && v[7]? == some 45 && v[10]? == some 84 &&
-  match twoDigits v 0, twoDigits v 2, twoDigits v 5, twoDigits v 8, twoDigits v 11 with
-  | some c, some y, some m, some d, some h =>
+  (v.length == 13 || v.length == 12) && v[4]? == some 45 && v[7]? == some 45 && v[10]? == some 84 &&
+  match twoDigits v 0, twoDigits v 2, twoDigits v 5, twoDigits v 8 with
+  | some c, some y, some m, some d =>
+    let hour : Option Nat :=
+      if v.length == 13 then twoDigits v 11
+      else match v[11]? with | some x => if isDigit x then some (x - 48) else none | none => none
     let year := c * 100 + y
     let leap := year % 4 == 0 && (year % 100 != 0 || year % 400 == 0)
     let dim := if m == 2 then (if leap then 29 else 28) else if [4, 6, 9, 11].contains m then 30 else 31
-    1 ≤ m && m ≤ 12 && 1 ≤ d && d ≤ dim && h ≤ 23
-  | _, _, _, _, _ => false
+    1 ≤ m && m ≤ 12 && 1 ≤ d && d ≤ dim && (match hour with | some h => h ≤ 23 | none => false)
+  | _, _, _, _ => false
 
 /-- the abstract part of `CheckConstraint` (regex, datetime) for the constraints of the domain -/
 def abs0 : C02.Constraint → Bytes → Bool := fun c v =>
@@ -151,6 +155,8 @@ def parseHop (s : String) : Option HopSeen :=
 /-- one evaluation of a chain mode: (c.Path() when the chain came back to the outermost middleware,
 what came back to the loggers (innermost first), the rest — `chain` = what came back to the
 outermost middleware) -/
+def xpreOf (s : String) : Option String := ((kvOf s).find? (·.1 == "xpre")).map (·.2)
+
 def parseSeen (s : String) : Option (Option Bytes × List HopSeen × Seen) := do
   let kv := kvOf s
   let get (k : String) : Option String := (kv.find? (·.1 == k)).map (·.2)
@@ -228,6 +234,9 @@ structure Mode where
   strict : Bool
   unesc : Bool
   ov : Option Bytes
+  pb : Bool      -- the raising handler writes X-Pre and the body "pre" before it fails
+  fb : Bool      -- every failing error handler writes the body "part" before it fails
+  prewrites : Bool  -- any of +st +pb +fh +fb
 
 def parseMode (s : String) : Except String Mode := do
   match s.splitOn "+" with
@@ -238,8 +247,11 @@ def parseMode (s : String) : Except String Mode := do
       ((base.startsWith "sub" || base.startsWith "net") && isNum ((base.drop 3).toString))
     if !okBase then throw "outside-domain: mode"
     let ovs := fl.filter (·.startsWith "ov")
-    let fl' := fl.filter (!·.startsWith "ov")
-    if !(fl'.all fun x => ["custom", "cs", "strict", "subcs", "unesc", "log", "logskip", "sublog", "sublogskip"].contains x) then
+    let isCode (x : String) : Bool := x.length == 5 && (x.startsWith "st" || x.startsWith "fh") &&
+      (match (x.drop 2).toString.toNat? with | some c => 200 ≤ c && c ≤ 599 | none => false)
+    let codes := fl.filter isCode
+    let fl' := fl.filter fun x => !x.startsWith "ov" && !isCode x
+    if !(fl'.all fun x => ["custom", "cs", "strict", "subcs", "unesc", "log", "logskip", "sublog", "sublogskip", "pb", "fb"].contains x) then
       throw "outside-domain: mode flag"
     if (fl.contains "log" && fl.contains "logskip") || (fl.contains "sublog" && fl.contains "sublogskip") then
       throw "outside-domain: two loggers at one place"
@@ -251,7 +263,13 @@ def parseMode (s : String) : Except String Mode := do
         | some p => if p.head? == some 47 then pure (some p) else throw "outside-domain: override"
         | none => throw "outside-domain: override"
     if ov.isSome && (kind == "srv" || kind == "net") then throw "outside-domain: override in a server mode"
-    pure ⟨kind, fl.contains "custom", fl.contains "cs", fl.contains "strict", fl.contains "unesc", ov⟩
+    let pre := !codes.isEmpty || fl.contains "pb" || fl.contains "fb"
+    if pre && (kind == "srv" || kind == "net" || fl.any (fun x => ["log", "logskip", "sublog", "sublogskip"].contains x)) then
+      throw "outside-domain: response written before the failure in a server / logger mode"
+    if (codes.filter (·.startsWith "st")).length > 1 || (codes.filter (·.startsWith "fh")).length > 1 then
+      throw "outside-domain: mode flag twice"
+    pure ⟨kind, fl.contains "custom", fl.contains "cs", fl.contains "strict", fl.contains "unesc", ov,
+          fl.contains "pb", fl.contains "fb", pre⟩
 
 def handleCase (f : List String) : Except String Verdict := do
   match f with
@@ -288,7 +306,7 @@ def handleCase (f : List String) : Except String Verdict := do
       return { id := id, modelObs := "no-panic", implObs := outcomes,
                spec := some "panic: the error funnel panicked", tags := [mode, "panic"] }
     -- the funnel's input, the model's outcome for it, the evaluations as the oracle sees them
-    let (path, modelObs, seen, inTag) ←
+    let (path, modelObs, seen, inTag, left) ←
       if server then do
         let seen := outs.filterMap parseSrvSeen
         if seen.length != outs.length then throw "outside-domain: unparsable outcome"
@@ -303,7 +321,7 @@ def handleCase (f : List String) : Except String Verdict := do
         let tag := match first with
           | some (e, _) => (match mapServerErr e with | .fiber c _ => s!"srv-{c}" | .plain _ => "srv-plain")
           | none => "srv-none"
-        pure (path, model, seen.map (·.2), tag)
+        pure (path, model, seen.map (·.2), tag, ([] : Bytes))
       else do
         let seen := outs.filterMap parseSeen
         if seen.length != outs.length then throw "outside-domain: unparsable outcome"
@@ -323,7 +341,12 @@ def handleCase (f : List String) : Except String Verdict := do
         let lead := hops.takeWhile (·.err.isNone)
         let rest := hops.drop lead.length
         let origin := match rest with | h :: _ => h.err | [] => chain
-        let outcome := request chk0 cfg l rootOwn (rest.map fun _ => path) path origin
+        -- what is on the response when a failing error handler gives up: its own body, else the body
+        -- of the handler that raised the error (whether that one ran is read from the header it set)
+        let xpre := (outs.head?).bind xpreOf
+        let left : Bytes := if md.fb then b "part" else if md.pb && xpre == some "1" then b "pre" else []
+        let outcome := if hops.isEmpty then funnel chk0 cfg l rootOwn path origin left
+          else request chk0 cfg l rootOwn (rest.map fun _ => path) path origin
         let hopsM : List (String × Option Err × Bytes) :=
           lead.map (fun h => (h.who, none, path)) ++
           (match rest with
@@ -335,8 +358,10 @@ def handleCase (f : List String) : Except String Verdict := do
           | some (.fiber c _), none => tag ++ s!",fiber-{c}"
           | some (.plain _), none => tag ++ ",plain-error"
           | _, _ => tag
-        pure (path, renderOutcome chainM path hopsM outcome, seen.map (fun x => { x.2.2 with chain := origin }), tag)
-    let spec := match specViolation cfg cov l rootOwn path seen with
+        let tag := if md.prewrites then tag ++ ",response-written-before" else tag
+        let xs := match outcome, xpre with | some _, some x => s!";xpre={x}" | _, _ => ""
+        pure (path, renderOutcome chainM path hopsM outcome ++ xs, seen.map (fun x => { x.2.2 with chain := origin }), tag, left)
+    let spec := match specViolation cfg cov l rootOwn path seen left with
       | some c => some c
       | none =>
         if tokens && !pats.isEmpty && selectSpec cfg (coversRouter chk0 cfg) l path != selectSpec cfg cov l path then
@@ -366,6 +391,8 @@ def handleCase (f : List String) : Except String Verdict := do
       (if top.length ≥ 2 then ["nt-tie-decided-by-prefix-order"] else []) ++
       (if pats.isEmpty then [] else if tokens then ["reading-tokens"] else ["reading-router"]) ++
       (if inK1 then ["former-K1-region"] else []) ++
+      (if md.prewrites && (match chosen, rootOwn with | some o, _ => o.fails | none, some o => o.fails | none, none => false)
+        then ["nt-failing-handler-on-written-response"] else []) ++
       (match chosen, rootOwn with
         | some o, _ => if o.fails then ["mounted-handler-fails"] else ["mounted-handler"]
         | none, some _ => ["root-handler"]
